@@ -14,7 +14,7 @@ RULE = (
     "(A) strings: cluster over letters, digits and . _ - + = : # @ without '::' (or no cluster), module = dotted identifiers, function = identifier or dotted qualname, "
     "version over the same alphabet incl. '::' (or none): parse_qualified_name(build(parts)) == parts. (B) store: the same cluster/version strings realised on a memento function in a fresh forked process, "
     "called twice (second call must be a hit), queried with memento() and listed with list_mementos() / list_memoized_functions() on filesystem and memory backends. "
-    "(C) evolutions: a caller with a pinned explicit version calls an automatically-versioned callee; after the caller is memoized the callee is edited, re-versioned explicitly, renamed, removed, or moved to another cluster, "
+    "(C) evolutions: a caller with a pinned explicit version calls an automatically-versioned callee; after the caller is memoized the callee is edited, re-versioned explicitly, renamed, removed, moved to another cluster, stripped of its decorator (name now bound to a plain function) or replaced by a non-callable object under the same name, "
     "in the default or a named cluster, delivered in-process or by restart against the same store. Oracle: no read of stored metadata raises; the caller's entry is served (its body does not run) with the stored value; "
     "memento() is found; the stored invocation of the callee (and a stored function-valued argument referring to it) is reported external exactly when that callee version no longer exists (asserted for edit / re-version / rename / remove); listings contain the stored names. "
     "Non-trivial: A/B - a separator character (: # . @) inside cluster or version; C - an evolution that makes a referenced version vanish. Distinct by case."
@@ -144,6 +144,13 @@ def _prog_c(case, evolved):
         caller_body = {"e": "lit", "v": 10}
     elif ev == "recluster":
         callee["cluster"] = "other" if cl is None else None
+    elif ev == "unwrap":
+        # the decorator is removed: the name stays bound, to a plain function
+        callee["memento"], callee["cluster"] = False, None
+    elif ev == "rebind-object":
+        # the name stays bound, to something that is not callable at all
+        defs = [{"k": "var", "mod": "a", "name": "g", "vtype": "dict", "value": {"k": 5, "z": 1}}]
+        caller_body = {"e": "add", "a": {"e": "glob", "n": "g"}, "b": {"e": "lit", "v": 10}}
     caller = {"k": "fn", "mod": "a", "name": "f0", "memento": True, "version": "1", "cluster": cl, "pdef": None, "kwdef": None,
               "base": {"e": "lit", "v": 0}, "body": caller_body}
     return {"pkg": "vpk", "modules": ["a"], "defs": defs + [caller]}
@@ -180,7 +187,7 @@ def exec_c(case, scratch):
                               symptom="read-raised", op="list_mementos(fn argument)", exc=fl["exc"], where=fl.get("where"))
             elif len(fl["ok"]) != 1 or (case["evolution"] != "recluster" and fl["ok"][0][1] != old_callee):
                 out.violation("%s: stored entry with function argument lists as %r, it was stored with %r" % (lab, fl["ok"], old_callee), symptom="listing-differs")
-            elif r is r1 and case["evolution"] in ("edit", "reversion", "rename", "remove") and fl["ok"][0][2] is not True:
+            elif r is r1 and case["evolution"] in ("edit", "reversion", "rename", "remove", "unwrap", "rebind-object") and fl["ok"][0][2] is not True:
                 out.violation("%s: function argument referring to vanished version %r is not reported external" % (lab, old_callee),
                               symptom="vanished-not-external", evolution=case["evolution"])
         if not out.violations:
@@ -196,7 +203,7 @@ def exec_c(case, scratch):
                 pass  # the stored reference resolves to the moved function; only "nothing raises, caller served" is asserted
             elif [i[0] for i in inv] != [old_callee]:
                 out.violation("after %s: stored invocations %r, the caller called %r" % (case["evolution"], inv, old_callee), symptom="invocations-differ")
-            elif case["evolution"] in ("edit", "reversion", "rename", "remove"):
+            elif case["evolution"] in ("edit", "reversion", "rename", "remove", "unwrap", "rebind-object"):
                 if inv[0][1] is not True:
                     out.violation("after %s (%s): reference to vanished callee version %r is not reported external" % (case["evolution"], case["delivery"], old_callee),
                                   symptom="vanished-not-external", evolution=case["evolution"])
@@ -217,7 +224,7 @@ def execute(case, scratch):
         out.nontrivial = _special(case["cluster"]) or _special(case["version"])
     else:
         out = exec_c(case, scratch)
-        out.nontrivial = case["evolution"] in ("edit", "reversion", "rename", "remove")
+        out.nontrivial = case["evolution"] in ("edit", "reversion", "rename", "remove", "unwrap", "rebind-object")
     out.labels = ["part:" + part] + (["version-has-colon"] if ":" in (case.get("version") or "") else []) + \
         (["version-has-hash"] if "#" in (case.get("version") or "") else []) + \
         (["cluster-has-sep"] if any(c in (case.get("cluster") or "") for c in ":#") else []) + \
@@ -255,7 +262,7 @@ def run_shard(ctx):
     dl = (lambda: (ctx.deadline - time.time()) if ctx.deadline else None)
     core.hyp_search(a, ex, stats, max_examples=20000 if thorough else 4000, seed=core.hash64(ctx.seed, ID, "A", ctx.shard), findings=ctx.findings, deadline_s=dl())
     core.hyp_search(b, ex, stats, max_examples=400 if thorough else 60, seed=core.hash64(ctx.seed, ID, "B", ctx.shard), findings=ctx.findings, deadline_s=dl())
-    # part C is a small finite matrix: enumerate it (5 clusters x 6 evolutions x 2 deliveries)
-    cs = [{"part": "C", "cluster": cl, "evolution": ev, "delivery": dv} for cl in (None, "c", "a:b", "x#y", "c1@p") for ev in ("none", "edit", "reversion", "rename", "remove", "recluster") for dv in ("restart", "inproc")]
+    # part C is a small finite matrix: enumerate it (5 clusters x 8 evolutions x 2 deliveries)
+    cs = [{"part": "C", "cluster": cl, "evolution": ev, "delivery": dv} for cl in (None, "c", "a:b", "x#y", "c1@p") for ev in ("none", "edit", "reversion", "rename", "remove", "recluster", "unwrap", "rebind-object") for dv in ("restart", "inproc")]
     core.enum_search(cs, ex, stats, findings=ctx.findings, shard=ctx.shard, nshards=ctx.nshards, deadline_s=dl())
     return stats
